@@ -277,6 +277,9 @@ func genItem(g *mon.Rand) sh.Item {
 		return int64(g.U64()) >> uint(g.Intn(64))
 	case 1:
 		n := g.Intn(20)
+		if g.Chance(1, 12) {
+			n = mon.Pick(g, []int{255, 256, 511, 512, 513, 1024, 4097, 70000}) // long values (signatures, URLs, digests are strings / byte sequences)
+		}
 		b := make([]byte, n)
 		for i := range b {
 			switch g.Intn(6) {
@@ -292,6 +295,10 @@ func genItem(g *mon.Rand) sh.Item {
 	case 2:
 		return sh.Token(genToken(g))
 	default:
+		if g.Chance(1, 6) {
+			// around typical chunk sizes of a base64 encoder (multiples of 3 and not)
+			return g.Bytes(mon.Pick(g, []int{255, 256, 257, 510, 511, 512, 513, 514, 515, 767, 768, 769, 1023, 1024, 1025, 1536, 3072, 4095, 4096, 4099, 65535, 65537}))
+		}
 		return g.Bytes(g.Intn(71))
 	}
 }
@@ -466,7 +473,7 @@ func run(r *mon.Run) {
 	// generated values, serialized and re-parsed
 	nGen := 3000
 	if r.Thorough {
-		nGen = 150000
+		nGen = 1000000
 	}
 	for i := 0; i < nGen; i++ {
 		if !r.Mine(i) {
